@@ -32,6 +32,7 @@ HOSTILE_PP = [
 
 HOSTILE = [
     "",
+    "module m7\ninterface gen\nmodule procedure s1\nend interface gen\ncontains\nsubroutine s1(i)\ninteger :: i\nend subroutine s1\nsubroutine u()\nassociate (y => gen)\ncall y(1)\nend associate\nend subroutine u\nend module m7\n",
     "subroutine short(a, &\n                 b, an_undeclared_dummy_argument_with_a_long_name)\n implicit none\n integer :: a, b\nend subroutine short\n"
     "module mshort\n use &\n   a_module_that_does_not_exist_anywhere_in_this_workspace\n integer :: &\n      twice_declared_with_a_long_name\n real :: &\n"
     "      twice_declared_with_a_long_name\nend module mshort\n",
